@@ -28,19 +28,19 @@ NOT_DECIDED = ["every input inside the documented domain is accepted (needs feas
 
 # kinds of checks (columns of the validation matrix): name -> regex over the canonical site test
 KINDS = {
-    "string-nodes": r"isinstance\(node, str\) for node in (base_graph|G)\.nodes",
-    "acyclic": r"is_directed_acyclic_graph\(self\.base_graph\)",
-    "source-sink-exist": r"len\(self\.(source|sink)_edges\) == 0",
-    "weights-present-nonneg": r"data\[flow_attr\] < 0|flow_attr in data",
+    "string-nodes": r"^not \(isinstance\(L0_0, str\)\) @ (base_graph|G)\.nodes$",
+    "acyclic": r"^not \(nx\.is_directed_acyclic_graph\(self\.base_graph\)\)",
+    "source-sink-exist": r"^not \(self\.(source|sink)_edges\)",
+    "weights-present-nonneg": r"^LT0\[L0_2\[flow_attr\]\] @ self\.edges|^not \(flow_attr in L0_2\) @ self\.edges",
     "conservation": r"satisfies_flow_conservation|check_flow_conservation",
-    "constraint-shape-membership": r"self\.G\.has_edge\(e\[0\], e\[1\]\)",
-    "coverage-range": r"_coverage <= 0",
-    "k-positive": r"(^|\W)k <= 0",
-    "weight-type": r"weight_type in \[int, float\]",
-    "origin-or-cover-type": r"(flow_attr_origin|cover_type) == 'edge'",
-    "additional-start-end-membership": r"additional_(starts|ends)\.issubset",
-    "error-scaling-range": r"\(value < 0\) or \(value > 1\)",
-    "ignore-list-shape": r"isinstance\(.*elements_to_ignore",
+    "constraint-shape-membership": r"^not \(self\.G\.has_edge\(L1_0\[0\], L1_0\[1\]\)\) @ L0_0",
+    "coverage-range": r"^LE0\[self\.sub(path|set)_constraints_coverage\]",
+    "k-positive": r"^LE0\[k\]",
+    "weight-type": r"^not \((self\.)?weight_type in \[int, float\]\)",
+    "origin-or-cover-type": r"^not \('edge' == self\.(flow_attr_origin|cover_type)\)",
+    "additional-start-end-membership": r"^not \(self\.additional_(starts|ends)\.issubset\(base_graph\.nodes\(\)\)\)",
+    "error-scaling-range": r"^LT0\[L0_1\] @ .*error_scaling\.items\(\)|^not \(LE0\[-1 \+ L0_1\]\) @ .*error_scaling\.items\(\)",
+    "ignore-list-shape": r"^not \(isinstance\(L0_0, str\)\) @ elements_to_ignore|isinstance\(L\d_0, tuple\).* @ (elements_to_ignore|L0_0)",
 }
 
 # required cells (DESIGN Appendix B): class -> kinds that must be established at construction or (wrappers) in solve
@@ -158,7 +158,7 @@ def matrix_rule(prog: Program, rep, RID: str):
         tests = []
         for k in funcs:
             for row in cur_sites.get(k, []):
-                tests.append((k, row["test"]))
+                tests.append((k, row["test"] + (f" @ {row['loop']}" if row.get("loop") else "")))
         # kFlowDecomp's conservation flag is computed from a call, not a site test: include call names of the closure
         calls = set()
         for k in funcs:
